@@ -191,6 +191,9 @@ inline Rational ratFromString(const char* desc)
             res = Rational(desc + 1);
          else
             res = Rational(desc);
+
+         // the string constructor does not cancel common factors (and accepts a zero denominator)
+         res = Rational(numerator(res), denominator(res));
       }
       /* case 2: string is given as base-10 decimal number */
       else
@@ -225,7 +228,7 @@ inline Rational ratFromString(const char* desc)
 
             // remove padding 0s
             if(s[0] == '-')
-               s.erase(1, SOPLEX_MIN(s.substr(1).find_first_not_of('0'), s.size() - 1));
+               s.erase(1, SOPLEX_MIN(s.substr(1).find_first_not_of('0'), s.size() - 2));
             else
                s.erase(0, SOPLEX_MIN(s.find_first_not_of('0'), s.size() - 1));
 
@@ -238,7 +241,25 @@ inline Rational ratFromString(const char* desc)
          else
             res = Rational(s);
 
-         res *= pow(10, mult);
+         // the string constructor does not cancel common factors
+         res = Rational(numerator(res), denominator(res));
+
+         // exact power of ten; pow(10, mult) in double precision is inexact for mult < 0 and mult > 22 and infinite
+         // for mult > 308
+         if(mult != 0)
+         {
+            // 10^100000 has 332193 bits; anything beyond is not a sensible LP coefficient but would take minutes
+            if(mult > 100000 || mult < -100000)
+               throw std::out_of_range("exponent of rational literal out of range");
+
+            Integer ten = 10;
+            Rational p = Rational(boost::multiprecision::pow(ten, (unsigned int)(mult < 0 ? -(long long) mult : (long long) mult)));
+
+            if(mult > 0)
+               res *= p;
+            else
+               res /= p;
+         }
       }
    }
 
